@@ -492,6 +492,73 @@ def quantile_empty(ck):
             ck.fail("quantile/empty-axis/model", "model no longer faults on the empty sample", {})
 
 
+FHDR = ("From Coq Require Import ZArith List.\nFrom NV.C16 Require Import FibreModel.\n")
+
+
+def _q_fib_call(case):
+    """Fill the strided view with each element's own offset (in elements, relative to view[0,..,0]);
+    the minimum (r=0) and maximum (r=1, interp) of every fibre then reveal which (start, stride, size)
+    triple the wrapper handed to the C kernel, and in which order the fibres are visited."""
+    from nipy.algorithms.statistics import quantile
+    view, axis = case
+    base = view.base if view.base is not None else view
+    bcopy = np.array(base, copy=True, order="K")
+    off = (view.__array_interface__["data"][0] - base.__array_interface__["data"][0])
+    X = np.ndarray(view.shape, np.float64, bcopy, offset=off, strides=view.strides)
+    offs = np.zeros(view.shape)
+    for k, (n, st) in enumerate(zip(view.shape, view.strides)):
+        shp = [1] * view.ndim
+        shp[k] = n
+        offs = offs + (np.arange(n) * (st // 8)).reshape(shp)
+    X[...] = offs
+    lo = np.array(quantile(X, 0.0, interp=False, axis=axis))
+    X[...] = offs
+    hi = np.array(quantile(X, 1.0, interp=True, axis=axis))
+    return lo.reshape(-1).tolist(), hi.reshape(-1).tolist()
+
+
+def quantile_fibres(ck):
+    views = _q_nd_views(ck)
+    cases = [(v, ax) for v, d in views for ax in range(v.ndim)]
+    res = run_guarded(_q_fib_call, cases)
+    terms = []
+    meta = []
+    for (view, axis), rr in zip(cases, res):
+        shape = list(view.shape)
+        strides = [s // 8 for s in view.strides]
+        replay = {"shape": shape, "strides_elements": strides, "axis": axis}
+        ck.count(("qfib", tuple(shape), tuple(strides), axis), nontrivial=view.size > 1, bucket="fibre-iteration:%dd" % view.ndim)
+        if rr[0] != "ok":
+            ck.fail("quantile/fibres/%s" % rr[0], "fibre probe did not complete: %r" % (rr[1],), replay)
+            continue
+        lo, hi = rr[1]
+        # direct oracle: numpy's own fibres of the offset array
+        offs = np.zeros(view.shape)
+        for k, (n, st) in enumerate(zip(shape, strides)):
+            shp = [1] * view.ndim
+            shp[k] = n
+            offs = offs + (np.arange(n) * st).reshape(shp)
+        elo = offs.min(axis=axis, keepdims=True).reshape(-1).tolist()
+        ehi = offs.max(axis=axis, keepdims=True).reshape(-1).tolist()
+        if lo != elo or hi != ehi:
+            feat = "negative-stride" if strides[axis] < 0 else ("non-unit-stride" if abs(strides[axis]) != 1 else "unit-stride")
+            ck.fail("quantile/fibres/wrong-elements/%s" % feat,
+                    "min/max element offsets per fibre along axis %d are %s / %s, numpy's fibres give %s / %s" % (axis, lo, hi, elo, ehi),
+                    dict(replay, impl_min=lo, impl_max=hi))
+        pairs = "[" + "; ".join("(%s, %s)" % (cz(a), cz(b)) for a, b in zip(lo, hi)) + "]"
+        terms.append("zpairs_eqb (fibre_extremes %s %s %s) %s" % (
+            "[" + "; ".join(cnat(n) for n in shape) + "]", czl(strides), cnat(axis), pairs))
+        meta.append((replay, lo, hi))
+    if ck.build is not None and ck.build.ok and terms:
+        ok = ck.coq_bools(FHDR, terms, shard=60, name="qfib")
+        ck.cov["traces_validated_against_impl"] += len(ok)
+        for good, (replay, lo, hi) in zip(ok, meta):
+            if not good:
+                ck.fail("quantile/fibres/model-vs-impl", "fibre model (FibreModel.fibres) and the wrapper's iteration disagree: %s" % replay,
+                        dict(replay, impl_min=lo, impl_max=hi))
+    ck.section("fibre-iteration", calls=len(cases), model_terms=len(terms))
+
+
 def _timed(ck, name, fn):
     import time
     t = time.time()
@@ -503,6 +570,452 @@ def quantile_section(ck):
     _timed(ck, "quantile_direct", quantile_direct)
     _timed(ck, "quantile_nd", quantile_nd)
     _timed(ck, "quantile_empty", quantile_empty)
+    _timed(ck, "quantile_fibres", quantile_fibres)
+
+
+# ====================================================================== blas (fff_blas.c)
+# ---------------------------------------------------------------------------
+# C16 / blas section: row-major wrappers of column-major BLAS (lib/fff/fff_blas.c)
+#   paste into harness/props/c16.py; run(ck) must have called ck.coq_build()
+#   and ck.overlay() before blas(ck).
+# ---------------------------------------------------------------------------
+import ctypes as _blas_ct
+import itertools as _blas_it
+
+import numpy as _blas_np
+
+blas_HDR = ("From Coq Require Import List ZArith.\n"
+            "From NV.Generated Require Import FffBlas.\n"
+            "From NV.C16 Require Import BlasModel.\n")
+
+# CBLAS enum values of fff_blas.h and their Coq names
+blas_TRANS = {111: "CblasNoTrans", 112: "CblasTrans", 113: "CblasConjTrans"}
+blas_UPLO = {121: "CblasUpper", 122: "CblasLower"}
+blas_DIAG = {131: "CblasNonUnit", 132: "CblasUnit"}
+blas_SIDE = {141: "CblasLeft", 142: "CblasRight"}
+# integer conventions of the Python wrappers in nipy/labs/bindings/linalg.pyx (flag <= 0 -> first value)
+blas_PYFLAG = {111: 0, 112: 1, 121: 0, 122: 1, 131: 0, 132: 1, 141: 0, 142: 1}
+blas_FLAGNAME = {}
+for _blas_d in (blas_TRANS, blas_UPLO, blas_DIAG, blas_SIDE):
+    blas_FLAGNAME.update(_blas_d)
+blas_LETTER = {111: "N", 112: "T", 113: "C", 121: "U", 122: "L", 131: "N", 132: "U", 141: "L", 142: "R"}
+
+
+class _blas_FM(_blas_ct.Structure):
+    _fields_ = [("size1", _blas_ct.c_size_t), ("size2", _blas_ct.c_size_t), ("tda", _blas_ct.c_size_t),
+                ("data", _blas_ct.POINTER(_blas_ct.c_double)), ("owner", _blas_ct.c_int)]
+
+
+class _blas_FV(_blas_ct.Structure):
+    _fields_ = [("size", _blas_ct.c_size_t), ("stride", _blas_ct.c_size_t),
+                ("data", _blas_ct.POINTER(_blas_ct.c_double)), ("owner", _blas_ct.c_int)]
+
+
+def _blas_fm(a):
+    """contiguous float64 copy + fff_matrix view on it (keep both alive)"""
+    a = _blas_np.array(a, dtype=_blas_np.float64, order="C", copy=True)
+    return a, _blas_FM(a.shape[0], a.shape[1], a.shape[1], a.ctypes.data_as(_blas_ct.POINTER(_blas_ct.c_double)), 0)
+
+
+def _blas_fv(x):
+    x = _blas_np.array(x, dtype=_blas_np.float64, order="C", copy=True)
+    return x, _blas_FV(x.shape[0], 1, x.ctypes.data_as(_blas_ct.POINTER(_blas_ct.c_double)), 0)
+
+
+def _blas_lib(ck):
+    """libcstat.so built by the overlay from the CURRENT lib/fff + lapack_lite C sources"""
+    path = (getattr(ck, "ov", None) or {}).get("cstat")
+    if path is None:
+        path = ck.overlay(cstat=True)["cstat"]
+    lib = _blas_ct.CDLL(str(path))
+    I, D = _blas_ct.c_int, _blas_ct.c_double
+    M, V = _blas_ct.POINTER(_blas_FM), _blas_ct.POINTER(_blas_FV)
+    sigs = {"dgemv": [I, D, M, V, D, V], "dtrsv": [I, I, I, M, V], "dgemm": [I, I, D, M, M, D, M],
+            "dsymm": [I, I, D, M, M, D, M], "dtrmm": [I, I, I, I, D, M, M], "dtrsm": [I, I, I, I, D, M, M],
+            "dsyrk": [I, I, D, M, D, M], "dsyr2k": [I, I, D, M, M, D, M]}
+    fns = {}
+    for r, at in sigs.items():
+        f = getattr(lib, "fff_blas_" + r)
+        f.argtypes = at
+        f.restype = I
+        fns[r] = f
+    return fns
+
+
+def _blas_ri(rng, shape, lo=-3, hi=3):
+    return rng.integers(lo, hi + 1, size=shape).astype(_blas_np.float64)
+
+
+def _blas_tri_pm1(rng, n):
+    """integer matrix with +-1 diagonal (both triangles filled): triangular solves stay exact integers"""
+    a = _blas_ri(rng, (n, n))
+    a[_blas_np.arange(n), _blas_np.arange(n)] = rng.choice([-1.0, 1.0], size=n)
+    return a
+
+
+def _blas_zl(a):
+    return "[" + "; ".join("(%d)%%Z" % int(v) for v in _blas_np.asarray(a).ravel()) + "]"
+
+
+def _blas_zm(a):
+    return "(zm %d %d %s)" % (a.shape[0], a.shape[1], _blas_zl(a))
+
+
+def _blas_zv(x):
+    return "(zv %s)" % _blas_zl(x)
+
+
+def _blas_z(v):
+    return "(%d)%%Z" % int(v)
+
+
+def _blas_op(t, a):
+    return a if t == 111 else a.T
+
+
+def _blas_symm(uplo, a):
+    return _blas_np.triu(a) + _blas_np.triu(a, 1).T if uplo == 121 else _blas_np.tril(a) + _blas_np.tril(a, -1).T
+
+
+def _blas_tri(uplo, diag, a):
+    t = _blas_np.triu(a) if uplo == 121 else _blas_np.tril(a)
+    if diag == 132:
+        t = t.copy()
+        _blas_np.fill_diagonal(t, 1.0)
+    return t
+
+
+def _blas_trimask(uplo, n):
+    i, j = _blas_np.indices((n, n))
+    return (i <= j) if uplo == 121 else (j <= i)
+
+
+def _blas_lst(a):
+    return _blas_np.asarray(a).tolist()
+
+
+def _blas_cases(ck, rng):
+    """yield dicts: routine, feat, flags (C enum ints), args, dims key - iterated small to large"""
+    th = ck.thorough()
+    dmax = 4 if th else 3
+    reps = ck.n(3, 8)
+    sc = lambda: int(rng.integers(-2, 3))
+    TR = [111, 112, 113]
+    for rep in range(reps):
+        for d in range(1, dmax + 1):          # size tier: all dims <= d, at least one == d
+            dims2 = [p for p in _blas_it.product(range(1, d + 1), repeat=2) if max(p) == d]
+            dims3 = [p for p in _blas_it.product(range(1, d + 1), repeat=3) if max(p) == d]
+            # ---- dgemm: C (m x n) = alpha op(A) (m x k) op(B) (k x n) + beta C
+            for ta, tb in _blas_it.product(TR, TR):
+                for m, n, k in dims3:
+                    A = _blas_ri(rng, (m, k) if ta == 111 else (k, m))
+                    B = _blas_ri(rng, (k, n) if tb == 111 else (n, k))
+                    yield dict(r="dgemm", flags=(ta, tb), alpha=sc(), beta=sc(), A=A, B=B, C=_blas_ri(rng, (m, n)))
+            # ---- dgemv: y = alpha op(A) x + beta y
+            for ta, _ in _blas_it.product(TR, range(3)):
+                for m, n in dims2:
+                    A = _blas_ri(rng, (m, n))
+                    lx, ly = (n, m) if ta == 111 else (m, n)
+                    yield dict(r="dgemv", flags=(ta,), alpha=sc(), beta=sc(), A=A, x=_blas_ri(rng, lx), y=_blas_ri(rng, ly))
+            # ---- dsymm
+            for s, u, _ in _blas_it.product(blas_SIDE, blas_UPLO, range(2)):
+                for m, n in dims2:
+                    na = m if s == 141 else n
+                    yield dict(r="dsymm", flags=(s, u), alpha=sc(), beta=sc(), A=_blas_ri(rng, (na, na)),
+                               B=_blas_ri(rng, (m, n)), C=_blas_ri(rng, (m, n)))
+            # ---- dtrmm / dtrsm
+            for s, u, ta, dg in _blas_it.product(blas_SIDE, blas_UPLO, TR, blas_DIAG):
+                for m, n in dims2:
+                    na = m if s == 141 else n
+                    yield dict(r="dtrmm", flags=(s, u, ta, dg), alpha=sc(), A=_blas_ri(rng, (na, na)), B=_blas_ri(rng, (m, n)))
+                    yield dict(r="dtrsm", flags=(s, u, ta, dg), alpha=sc(), A=_blas_tri_pm1(rng, na), B=_blas_ri(rng, (m, n)))
+            # ---- dtrsv
+            for u, ta, dg in _blas_it.product(blas_UPLO, TR, blas_DIAG):
+                for _ in range(2):
+                    yield dict(r="dtrsv", flags=(u, ta, dg), A=_blas_tri_pm1(rng, d), x=_blas_ri(rng, d))
+            # ---- dsyrk / dsyr2k: C (n x n), op(A) n x k.  Non-square A only in the direction where the
+            #      dimension k actually passed by the wrapper stays inside the buffer (no out-of-bounds read)
+            for u, t, _ in _blas_it.product(blas_UPLO, TR, range(2)):
+                for n, k in dims2:
+                    passed_k = n                      # the code passes the row count of op(A) as k
+                    if passed_k > k:
+                        continue
+                    shp = (n, k) if t == 111 else (k, n)
+                    yield dict(r="dsyrk", flags=(u, t), alpha=sc(), beta=sc(), A=_blas_ri(rng, shp), C=_blas_ri(rng, (n, n)))
+                    yield dict(r="dsyr2k", flags=(u, t), alpha=sc(), beta=sc(), A=_blas_ri(rng, shp),
+                               B=_blas_ri(rng, shp), C=_blas_ri(rng, (n, n)))
+
+
+def _blas_run_case(c, fns, L):
+    """returns (out_c, out_py|None, expected|None, residual_ok|None, feat, coq_call, out_operand, replay)"""
+    r, fl = c["r"], c["flags"]
+    by = _blas_ct.byref
+    out_py = None
+    res_ok = None
+    exp = None
+    pyok = all(f in blas_PYFLAG for f in fl)
+    pf = [blas_PYFLAG.get(f) for f in fl]
+    replay = {"routine": "fff_blas_" + r, "flags": list(fl),
+              "flag_names": [blas_FLAGNAME[f] for f in fl]}
+    for k in ("alpha", "beta"):
+        if k in c:
+            replay[k] = c[k]
+    for k in ("A", "B", "C", "x", "y"):
+        if k in c:
+            replay[k] = _blas_lst(c[k])
+    if r == "dgemm":
+        ta, tb = fl
+        feat = "transA=%s,transB=%s" % (blas_LETTER[ta], blas_LETTER[tb])
+        A, a = _blas_fm(c["A"]); B, b = _blas_fm(c["B"]); C, cc = _blas_fm(c["C"])
+        fns[r](ta, tb, c["alpha"], by(a), by(b), c["beta"], by(cc))
+        out = C
+        exp = c["alpha"] * _blas_op(ta, c["A"]) @ _blas_op(tb, c["B"]) + c["beta"] * c["C"]
+        if pyok:
+            out_py = L.blas_dgemm(pf[0], pf[1], float(c["alpha"]), c["A"].copy(), c["B"].copy(), float(c["beta"]), c["C"].copy())
+        call = "zcall_dgemm %s %s %s %s %s %s %s" % (blas_TRANS[ta], blas_TRANS[tb], _blas_z(c["alpha"]), _blas_zm(c["A"]),
+                                                     _blas_zm(c["B"]), _blas_z(c["beta"]), _blas_zm(c["C"]))
+        outop = "OpC"
+    elif r == "dgemv":
+        (ta,) = fl
+        feat = "transA=%s" % blas_LETTER[ta]
+        A, a = _blas_fm(c["A"]); X, x = _blas_fv(c["x"]); Y, y = _blas_fv(c["y"])
+        fns[r](ta, c["alpha"], by(a), by(x), c["beta"], by(y))
+        out = Y
+        exp = c["alpha"] * _blas_op(ta, c["A"]) @ c["x"] + c["beta"] * c["y"]
+        call = "zcall_dgemv %s %s %s %s %s %s" % (blas_TRANS[ta], _blas_z(c["alpha"]), _blas_zm(c["A"]), _blas_zv(c["x"]),
+                                                  _blas_z(c["beta"]), _blas_zv(c["y"]))
+        outop = "OpY"
+    elif r == "dsymm":
+        s, u = fl
+        feat = "side=%s,uplo=%s" % (blas_LETTER[s], blas_LETTER[u])
+        A, a = _blas_fm(c["A"]); B, b = _blas_fm(c["B"]); C, cc = _blas_fm(c["C"])
+        fns[r](s, u, c["alpha"], by(a), by(b), c["beta"], by(cc))
+        out = C
+        S = _blas_symm(u, c["A"])
+        exp = c["alpha"] * (S @ c["B"] if s == 141 else c["B"] @ S) + c["beta"] * c["C"]
+        out_py = L.blas_dsymm(pf[0], pf[1], float(c["alpha"]), c["A"].copy(), c["B"].copy(), float(c["beta"]), c["C"].copy())
+        call = "zcall_dsymm %s %s %s %s %s %s %s" % (blas_SIDE[s], blas_UPLO[u], _blas_z(c["alpha"]), _blas_zm(c["A"]),
+                                                     _blas_zm(c["B"]), _blas_z(c["beta"]), _blas_zm(c["C"]))
+        outop = "OpC"
+    elif r in ("dtrmm", "dtrsm"):
+        s, u, ta, dg = fl
+        feat = "side=%s,uplo=%s,transA=%s,diag=%s" % (blas_LETTER[s], blas_LETTER[u], blas_LETTER[ta], blas_LETTER[dg])
+        A, a = _blas_fm(c["A"]); B, b = _blas_fm(c["B"])
+        fns[r](s, u, ta, dg, c["alpha"], by(a), by(b))
+        out = B
+        T = _blas_op(ta, _blas_tri(u, dg, c["A"]))
+        if r == "dtrmm":
+            exp = c["alpha"] * (T @ c["B"] if s == 141 else c["B"] @ T)
+        else:   # op(A) X = alpha B  /  X op(A) = alpha B ; T is unimodular so X is the unique integer solution
+            res_ok = bool(_blas_np.array_equal(T @ out if s == 141 else out @ T, c["alpha"] * c["B"]))
+        # the Python wrapper allocates the result with A's shape: only usable when B has A's shape
+        if pyok and c["B"].shape == c["A"].shape:
+            out_py = getattr(L, "blas_" + r)(pf[0], pf[1], pf[2], pf[3], float(c["alpha"]), c["A"].copy(), c["B"].copy())
+        call = "zcall_%s %s %s %s %s %s %s %s" % (r, blas_SIDE[s], blas_UPLO[u], blas_TRANS[ta], blas_DIAG[dg],
+                                                  _blas_z(c["alpha"]), _blas_zm(c["A"]), _blas_zm(c["B"]))
+        outop = "OpB"
+    elif r == "dtrsv":
+        u, ta, dg = fl
+        feat = "uplo=%s,transA=%s,diag=%s" % (blas_LETTER[u], blas_LETTER[ta], blas_LETTER[dg])
+        A, a = _blas_fm(c["A"]); X, x = _blas_fv(c["x"])
+        fns[r](u, ta, dg, by(a), by(x))
+        out = X
+        T = _blas_op(ta, _blas_tri(u, dg, c["A"]))
+        res_ok = bool(_blas_np.array_equal(T @ out, c["x"]))
+        call = "zcall_dtrsv %s %s %s %s %s" % (blas_UPLO[u], blas_TRANS[ta], blas_DIAG[dg], _blas_zm(c["A"]), _blas_zv(c["x"]))
+        outop = "OpX"
+    elif r in ("dsyrk", "dsyr2k"):
+        u, t = fl
+        square = c["A"].shape[0] == c["A"].shape[1]
+        # non-square A: known defect (the wrapper passes the row count of op(A) as k) -> one signature per routine
+        feat = ("uplo=%s,trans=%s" % (blas_LETTER[u], blas_LETTER[t])) if square else "k-dimension/nonsquare-A"
+        A, a = _blas_fm(c["A"]); C, cc = _blas_fm(c["C"])
+        Ao = _blas_op(t, c["A"])
+        if r == "dsyrk":
+            fns[r](u, t, c["alpha"], by(a), c["beta"], by(cc))
+            full = c["alpha"] * Ao @ Ao.T + c["beta"] * c["C"]
+            if pyok and square:
+                out_py = L.blas_dsyrk(pf[0], pf[1], float(c["alpha"]), c["A"].copy(), float(c["beta"]), c["C"].copy())
+            call = "zcall_dsyrk %s %s %s %s %s %s" % (blas_UPLO[u], blas_TRANS[t], _blas_z(c["alpha"]), _blas_zm(c["A"]),
+                                                      _blas_z(c["beta"]), _blas_zm(c["C"]))
+        else:
+            B, b = _blas_fm(c["B"])
+            Bo = _blas_op(t, c["B"])
+            fns[r](u, t, c["alpha"], by(a), by(b), c["beta"], by(cc))
+            full = c["alpha"] * (Ao @ Bo.T + Bo @ Ao.T) + c["beta"] * c["C"]
+            if pyok and square:
+                out_py = L.blas_dsyr2k(pf[0], pf[1], float(c["alpha"]), c["A"].copy(), c["B"].copy(), float(c["beta"]), c["C"].copy())
+            call = "zcall_dsyr2k %s %s %s %s %s %s %s" % (blas_UPLO[u], blas_TRANS[t], _blas_z(c["alpha"]), _blas_zm(c["A"]),
+                                                         _blas_zm(c["B"]), _blas_z(c["beta"]), _blas_zm(c["C"]))
+        out = C
+        # only the uplo triangle of C (row-major sense) is defined by the documentation; the code leaves
+        # the other triangle untouched, which is what is modelled and compared here
+        exp = _blas_np.where(_blas_trimask(u, c["C"].shape[0]), full, c["C"])
+        outop = "OpC"
+    else:
+        raise AssertionError(r)
+    return out, out_py, exp, res_ok, feat, call, outop, replay
+
+
+def _blas_all_square(c):
+    dims = set()
+    for k in ("A", "B", "C", "x", "y"):
+        if k in c:
+            dims.update(_blas_np.shape(c[k]))
+    return len(dims) == 1
+
+
+def _blas_exec(ck, cases):
+    """Run every case in a forked child process.  The f2c XERBLA of lapack_lite ends the process with
+    exit(0) (s_stop) when a Fortran routine rejects an argument, which would silently end the whole check:
+    the child writes one pickled result per case, the parent notices a child that ended early, reports the
+    case in progress, drops the remaining non-square cases of that routine (square ones
+    pass every leading-dimension check, so they still give a value-level replay) and forks again.
+    Returns a list with, per case, the result tuple, "died" or None (skipped)."""
+    import os
+    import pickle
+    import sys
+    results = [None] * len(cases)
+    dead = set()
+    start = 0
+    path = str(ck.scratch / "blas_results.pkl")
+    while start < len(cases):
+        sys.stdout.flush()
+        sys.stderr.flush()
+        open(path, "wb").close()
+        pid = os.fork()
+        if pid == 0:                       # child
+            code = 3
+            try:
+                from nipy.labs.bindings import linalg as L
+                fns = _blas_lib(ck)
+                with open(path, "ab") as f:
+                    for i in range(start, len(cases)):
+                        if cases[i]["r"] in dead and not _blas_all_square(cases[i]):
+                            continue
+                        pickle.dump(("start", i), f)
+                        f.flush()
+                        try:
+                            res = _blas_run_case(cases[i], fns, L)
+                        except Exception as e:  # noqa
+                            res = ("raised", "%s: %s" % (type(e).__name__, e))
+                        pickle.dump(("done", i, res), f)
+                        f.flush()
+                    pickle.dump(("end",), f)
+                    f.flush()
+                code = 0
+            finally:
+                os._exit(code)
+        _, status = os.waitpid(pid, 0)
+        ended, in_progress = False, None
+        with open(path, "rb") as f:
+            while True:
+                try:
+                    rec = pickle.load(f)
+                except EOFError:
+                    break
+                if rec[0] == "start":
+                    in_progress = rec[1]
+                elif rec[0] == "done":
+                    results[rec[1]] = rec[2]
+                    in_progress = None
+                else:
+                    ended = True
+        if ended:
+            break
+        if in_progress is None:            # child ended outside a case: do not loop for ever
+            raise RuntimeError("blas child process ended unexpectedly (status %r) outside a case" % (status,))
+        results[in_progress] = ("died", status)
+        dead.add(cases[in_progress]["r"])
+        start = in_progress + 1
+    return results
+
+
+def _blas_replay(c):
+    rp = {"routine": "fff_blas_" + c["r"], "flags": list(c["flags"]), "flag_names": [blas_FLAGNAME[f] for f in c["flags"]]}
+    for k in ("alpha", "beta"):
+        if k in c:
+            rp[k] = c[k]
+    for k in ("A", "B", "C", "x", "y"):
+        if k in c:
+            rp[k] = _blas_lst(c[k])
+    return rp
+
+
+def blas(ck):
+    """fff_blas.c wrappers: direct numpy oracle on the documented row-major result + exact correspondence
+    with the Z instance of fff_call over the GENERATED flag/operand/dimension table."""
+    rng = ck.rng("blas")
+    terms, meta = [], []
+    ncase = {}
+    npy = 0
+    cases = list(_blas_cases(ck, rng))
+    results = _blas_exec(ck, cases)
+    for c, resu in zip(cases, results):
+        r = c["r"]
+        if resu is None:
+            continue                      # dropped after a process-ending case of this routine (already reported)
+        if isinstance(resu[0], str):      # "died" | "raised"
+            ck.fail("blas/%s/%s" % (r, "process-exit-in-fortran-argument-check" if resu[0] == "died" else "raises"),
+                    "fff_blas_%s with flags %s: %s" % (r, [blas_FLAGNAME[f] for f in c["flags"]],
+                                                     "the Fortran routine rejected an argument (XERBLA -> exit), child status %r" % (resu[1],)
+                                                     if resu[0] == "died" else "raised " + str(resu[1])),
+                    _blas_replay(c))
+            continue
+        out, out_py, exp, res_ok, feat, call, outop, replay = resu
+        shapes = tuple(_blas_np.shape(c[k]) for k in ("A", "B", "C", "x", "y") if k in c)
+        ck.count(("blas", r, c["flags"], shapes, tuple(_blas_np.concatenate(
+            [_blas_np.ravel(c[k]) for k in ("A", "B", "C", "x", "y") if k in c]).tolist()),
+            c.get("alpha"), c.get("beta")), nontrivial=True, bucket="blas:" + r)
+        ncase[r] = ncase.get(r, 0) + 1
+        replay["impl_output"] = _blas_lst(out)
+        # (a) direct oracle: documented row-major result, exact
+        if exp is not None and not _blas_np.array_equal(out, exp):
+            replay["documented_result"] = _blas_lst(exp)
+            ck.fail("blas/%s/%s" % (r, feat),
+                    "fff_blas_%s(%s) returns %s, documented row-major result is %s" % (
+                        r, feat, _blas_lst(out), _blas_lst(exp)), replay)
+        if res_ok is False:
+            ck.fail("blas/%s/%s" % (r, feat),
+                    "fff_blas_%s(%s): result X=%s does not satisfy the documented triangular system" % (
+                        r, feat, _blas_lst(out)), replay)
+        # the Python wrapper of linalg.pyx must agree with the C function it wraps
+        if out_py is not None:
+            npy += 1
+            if not _blas_np.array_equal(_blas_np.asarray(out_py), out):
+                ck.fail("blas/%s/python-wrapper-vs-C" % r,
+                        "blas_%s(%s) returns %s but fff_blas_%s gives %s" % (r, feat, _blas_lst(out_py), r, _blas_lst(out)),
+                        dict(replay, python_wrapper_output=_blas_lst(out_py)))
+        # (b) correspondence term: Z model of fff_call with the generated table vs the implementation
+        if _blas_np.all(_blas_np.isfinite(out)) and _blas_np.array_equal(out, _blas_np.rint(out)):
+            terms.append("zres_is (%s) %s %s" % (call, outop, _blas_zl(out)))
+            meta.append((r, feat, call, replay))
+        else:
+            ck.fail("blas/%s/non-integer-output" % r,
+                    "fff_blas_%s(%s) on integer inputs returned non-integers %s" % (r, feat, _blas_lst(out)), replay)
+        if ncase[r] == 1 or (r == "dsymm" and ncase[r] == 9):
+            ck.sample({"call": "fff_blas_%s" % r, "feature": feat,
+                       "inputs": {k: replay[k] for k in ("alpha", "beta", "A", "B", "C", "x", "y") if k in replay},
+                       "output": _blas_lst(out)})
+    nmodel = 0
+    if ck.build is not None and ck.build.ok:
+        res = ck.coq_bools(blas_HDR, terms, name="blas")
+        nmodel = len(res)
+        ck.cov["traces_validated_against_impl"] += len(res)
+        shown = set()
+        for ok, (r, feat, call, replay) in zip(res, meta):
+            if ok or r in shown:
+                continue
+            shown.add(r)
+            mv = ck.coq_show(blas_HDR, call)
+            ck.fail("blas/%s/model-vs-impl" % r,
+                    "Z model of fff_call (generated table of fff_blas.c) and implementation disagree for "
+                    "fff_blas_%s(%s): impl %s, model %s" % (r, feat, replay["impl_output"], mv),
+                    dict(replay, model=mv, feature=feat))
+    ck.section("blas", cases=ncase, python_wrapper_cases=npy, model_cases=nmodel,
+               note="C level through ctypes on libcstat.so rebuilt from the current fff_blas.c; Python wrappers of "
+                    "linalg.pyx additionally where their allocation rule admits the shapes; integer inputs, exact comparison; "
+                    "dsyrk/dsyr2k compared on the whole matrix (code leaves the non-uplo triangle untouched)")
 
 
 # ====================================================================== run
